@@ -10,7 +10,9 @@ property fails on the implementation."""
 import json
 import os
 import re
+import struct
 
+import c12gen
 import common
 from common import BuildError, REPO, cxx_build, drv, first_diff, gen_write, log, sh
 
@@ -29,11 +31,26 @@ def is_multi(kind):
     return kind in ("umset", "ummap", "omset", "ommap")
 
 
+def f32_bits(x):
+    return struct.unpack("<I", struct.pack("<f", x))[0]
+
+
+def sc_mlf_bits(sc):
+    """initial max_load_factor of a scenario as a float bit pattern (`mlfb` wins over the fraction `mlf`)"""
+    if "mlfb" in sc:
+        return sc["mlfb"]
+    num, den = sc.get("mlf", (4, 1))
+    return f32_bits(num / den)
+
+
+SIZE_OPS = ("rsv", "reh", "mlf")
+
+
 def sc_text(sc):
     """scenario dict -> harness stdin"""
     t = "kind %s\n" % sc["kind"]
     if sc["kind"] in UO_KINDS:
-        t += "bc %d\nmlf %d %d\n" % (sc.get("bc", 8), sc.get("mlf", (4, 1))[0], sc.get("mlf", (4, 1))[1])
+        t += "bc %d\nmlfb %d\n" % (sc.get("bc", 8), sc_mlf_bits(sc))
         if sc.get("hash"):
             t += "hash " + " ".join("%d %d" % (k, h) for k, h in sorted(sc["hash"].items())) + "\n"
     if sc.get("pre"):
@@ -51,6 +68,8 @@ def modelled(kind, opname):
     """is the operation replayed on the model (otherwise its accesses - loads only - are skipped)"""
     if opname in ("ins", "emp", "find", "has", "trav"):
         return True
+    if opname in SIZE_OPS:
+        return kind in UO_KINDS
     if opname == "cnt":
         return kind in UO_KINDS or not is_multi(kind)    # unique containers: count = contains; unordered multi: prepare_bucket + unmodelled loads
     return False
@@ -61,6 +80,8 @@ def model_op(sc, w):
     f = w.split(":")
     name = f[0]
     if kind in UO_KINDS:
+        if name in SIZE_OPS:
+            return "%s:%s" % (name, f[1])
         if name in ("ins", "emp"):
             return "ins:%d:%s" % (hash_of(sc, int(f[1])), f[1])
         if name == "cnt" and is_multi(kind):
@@ -164,8 +185,7 @@ def replay_on_model(sc, run):
     drvname = "c12so" if uo else "c12sk"
     lines = []
     if uo:
-        mlf = sc.get("mlf", (4, 1))
-        lines.append("cfg %d %d %d %d" % (1 if is_multi(kind) else 0, sc.get("bc", 8), mlf[0], mlf[1]))
+        lines.append("cfg %d %d %d" % (1 if is_multi(kind) else 0, sc.get("bc", 8), sc_mlf_bits(sc)))
     else:
         lines.append("cfg %d %d" % (1 if is_multi(kind) else 0, 32))
     T = len(sc["progs"])
@@ -187,6 +207,10 @@ def replay_on_model(sc, run):
             if be == "e" and uo and name == "cnt" and is_multi(kind):
                 evs.append(("fin", t))
                 lines.append("fin %d" % t)
+            if be == "b" and uo and name == "mlf":
+                # max_load_factor(f) is a plain store: no traced access; it happens right here in the global order
+                evs.append(("silent", t))
+                lines.append("s %d" % t)
             continue
         _, t, k, var, a, b, ok, order = rec
         if UNMODELLED_VARS.match(var):
@@ -207,10 +231,53 @@ def replay_on_model(sc, run):
     opidx = {t: 0 for t in range(T)}
     mops = {t: [i for i, w in enumerate(sc["progs"][t]) if modelled(kind, w.split(":")[0])] for t in range(T)}
     orders_bad = []
+
+    def check_result(t, mtxt):
+        if opidx[t] >= len(mops[t]):
+            return "thread %d: model completed more operations than the program has" % t
+        oi = mops[t][opidx[t]]
+        opidx[t] += 1
+        ires = run["res"].get((t, oi))
+        if ires is None:
+            return "thread %d op %d: model completed it (%s) but the implementation did not" % (t, oi, mtxt)
+        mres = mtxt.split()
+        name = ires[0]
+        if mres == ["touch"]:
+            if not (name == "cnt" and uo and is_multi(kind)):
+                return "thread %d op %d: model ran prepare_bucket only for a %s" % (t, oi, name)
+            return None
+        exp = None
+        if name in ("ins", "emp"):
+            exp = ["ins", ires[2]]
+        elif name in ("find", "has"):
+            exp = ["find", ires[2]]
+        elif name == "cnt":
+            exp = ["find", ires[2]]
+        elif name == "trav":
+            exp = ["trav"] + ires[2:]
+        elif name == "rsv":
+            exp = ["sized", "reserve"]
+        elif name == "reh":
+            exp = ["sized", "rehash"]
+        elif name == "mlf":
+            exp = ["sized", "mlf" if ires[2] == "1" else "mlf-rejected"]
+        if mres != exp:
+            return "thread %d op %d (%s): implementation result %s, model %s" % (t, oi, sc["progs"][t][oi], " ".join(ires[2:]), mtxt)
+        return None
+
     for i, rec in enumerate(evs):
         if i >= len(out):
             return "model produced no output for event %d" % i, {}
         if rec[0] == "fin":
+            continue
+        if rec[0] == "silent":
+            t = rec[1]
+            parts = out[i].split(" | ")
+            if parts[0] != "none" or len(parts) < 2:
+                return "thread %d: max_load_factor(f) performs no atomic access, model `%s`" % (t, out[i]), {}
+            bad = check_result(t, parts[1])
+            if bad:
+                return bad, {}
             continue
         _, t, k, var, a, b, ok, order = rec
         if out[i] == "tail":
@@ -232,30 +299,9 @@ def replay_on_model(sc, run):
             orders_bad.append("%s %s %s" % (k, var, order))
         if len(parts) > 1:
             # the model completed an operation: results must agree
-            if opidx[t] >= len(mops[t]):
-                return "thread %d: model completed more operations than the program has" % t, {}
-            oi = mops[t][opidx[t]]
-            opidx[t] += 1
-            ires = run["res"].get((t, oi))
-            if ires is None:
-                return "thread %d op %d: model completed it (%s) but the implementation did not" % (t, oi, parts[1]), {}
-            mres = parts[1].split()
-            name = ires[0]
-            if mres == ["touch"]:
-                if not (name == "cnt" and uo and is_multi(kind)):
-                    return "thread %d op %d: model ran prepare_bucket only for a %s" % (t, oi, name), {}
-                continue
-            exp = None
-            if name in ("ins", "emp"):
-                exp = ["ins", ires[2]]
-            elif name in ("find", "has"):
-                exp = ["find", ires[2]]
-            elif name == "cnt":
-                exp = ["find", ires[2]]
-            elif name == "trav":
-                exp = ["trav"] + ires[2:]
-            if mres != exp:
-                return "thread %d op %d (%s): implementation result %s, model %s" % (t, oi, sc["progs"][t][oi], " ".join(ires[2:]), parts[1]), {}
+            bad = check_result(t, parts[1])
+            if bad:
+                return bad, {}
     for t in range(T):
         if opidx[t] != len([oi for oi in mops[t] if (t, oi) in run["res"]]):
             return "thread %d: implementation completed %d modelled operations, model %d" % (
@@ -350,6 +396,10 @@ def readers(rng, keys, n, multi, ordered):
 
 
 def gen_uo(rng, family):
+    if family == "dummyinit":
+        return gen_dummyinit(rng)
+    if family == "sizing":
+        return gen_sizing(rng)
     kind = rng.choice(UO_KINDS)
     multi = is_multi(kind)
     T = rng.choice([2, 2, 3, 3, 4])
@@ -423,6 +473,94 @@ def gen_uo(rng, family):
     return sc
 
 
+def msb(b):
+    return 1 << (b.bit_length() - 1)
+
+
+LOAD_FACTORS = [0.5, 1.0, 1.5, 2.0, 3.0, 4.0, 7.3, 0.75, 2.5, 5.0, 6.0, 10.0]
+
+
+def gen_dummyinit(rng, nthreads=None):
+    """One thread performs the FIRST access to bucket b (its parent p is initialised, b is not) while 2-3 others insert regular
+    nodes whose order keys lie between dummy(p) and dummy(b) (hashes congruent to p modulo 2*msb(b)): the window between
+    insert_dummy_node's search and its CAS."""
+    kind = rng.choice(UO_KINDS)
+    multi = is_multi(kind)
+    bcx = rng.choice([4, 8, 8, 16])
+    b = rng.randrange(1, bcx)
+    p = b - msb(b)
+    mod = 2 * msb(b)
+    T = nthreads or rng.choice([3, 3, 4])
+    sc = {"kind": kind, "family": "dummyinit", "bc": bcx, "mlf": rng.choice([(4, 1), (4, 1), (16, 1), (1, 1)]), "hash": {}, "pre": [], "progs": []}
+    key = [100]
+
+    def newkey(h):
+        key[0] += 1
+        sc["hash"][key[0]] = h
+        return key[0]
+    between = lambda: p + mod * rng.choice([0, 1, 2, 3, rng.getrandbits(8), rng.getrandbits(40), rng.getrandbits(60)])
+    inb = lambda: b + bcx * rng.choice([0, 1, 2, rng.getrandbits(8), rng.getrandbits(50)])
+    # initialise the parent without touching b: a lookup (no element) or an element of the parent's bucket
+    k0 = newkey(p + bcx * rng.choice([0, 1, 5]))
+    sc["pre"] = [rng.choice(["find:%d", "find:%d", "ins:%d"]) % k0]
+    if rng.random() < 0.3:
+        sc["pre"].append("ins:%d" % newkey(between()))
+    kb = newkey(inb())
+    ikeys = [newkey(between()) for _ in range(T - 1)]
+    if rng.random() < 0.25 and not multi:
+        ikeys[-1] = ikeys[0]                   # two interferers race on one key as well
+    first = rng.choice(["ins:%d", "ins:%d", "emp:%d", "find:%d", "has:%d"]) % kb
+    p0 = [first] + ["find:%d" % k for k in rng.sample(ikeys, min(2, len(ikeys)))]
+    if rng.random() < 0.5:
+        p0.append("ins:%d" % kb)
+    sc["progs"].append(p0)
+    for i in range(T - 1):
+        pr = ["%s:%d" % (rng.choice(["ins", "ins", "emp"]), ikeys[i])]
+        r = rng.random()
+        if r < 0.3:
+            pr.append("find:%d" % rng.choice(ikeys))
+        elif r < 0.5:
+            pr.append("ins:%d" % newkey(rng.choice([between(), inb()])))
+        elif r < 0.6:
+            pr.append("trav")
+        sc["progs"].append(pr)
+    return sc
+
+
+def gen_sizing(rng):
+    """reserve / rehash / max_load_factor(f) before (pre) and between (inside the thread programs) concurrent inserts; identity hash"""
+    kind = rng.choice(UO_KINDS)
+    multi = is_multi(kind)
+    T = rng.choice([2, 3, 3])
+    f = rng.choice(LOAD_FACTORS)
+    sc = {"kind": kind, "family": "sizing", "bc": rng.choice([1, 2, 8, 8]), "mlf": (4, 1), "hash": {}, "pre": [], "progs": []}
+    universe = rng.sample(range(1, 6000), 24)
+    big = lambda: rng.choice([rng.randrange(5, 200), rng.randrange(200, 1500), 1000, 100, 341, 683, 1365])
+    pre = ["mlf:%d" % f32_bits(f)]
+    pre.append(rng.choice(["rsv:%d", "rsv:%d", "reh:%d"]) % big())
+    pre += ["ins:%d" % k for k in rng.sample(universe, rng.randrange(0, 6))]
+    if rng.random() < 0.3:
+        pre.append("rsv:%d" % big())
+    sc["pre"] = pre
+    for t in range(T):
+        pr = []
+        for _ in range(rng.randrange(2, 6)):
+            r = rng.random()
+            if r < 0.55:
+                pr.append("%s:%d" % (rng.choice(["ins", "ins", "emp"]), rng.choice(universe)))
+            elif r < 0.8:
+                pr += readers(rng, universe, 1, multi, False)
+            elif r < 0.9:
+                pr.append(rng.choice(["rsv:%d", "reh:%d"]) % big())
+            elif t == 0:
+                pr.append("mlf:%d" % f32_bits(rng.choice(LOAD_FACTORS)))
+            else:
+                pr.append("ins:%d" % rng.choice(universe))
+        sc["progs"].append(pr)
+    return sc
+
+
+
 def gen_sl(rng, family):
     kind = rng.choice(SL_KINDS)
     multi = is_multi(kind)
@@ -475,13 +613,27 @@ CORPUS = [
     {"kind": "uset", "family": "corpus", "bc": 1, "mlf": (1, 1), "pre": ["ins:1"], "progs": [["ins:3", "find:1"], ["ins:2", "trav"]]},
     {"kind": "umset", "family": "corpus", "bc": 2, "mlf": (4, 1), "hash": {1: 6, 2: 6, 3: 6}, "pre": ["ins:1"], "progs": [["ins:1", "ins:2"], ["ins:2", "cnt:1"], ["trav"]]},
     {"kind": "umap", "family": "corpus", "bc": 2, "mlf": (1, 1), "hash": {1: 4, 2: (1 << 63) + 4, 3: (1 << 62) + 4}, "progs": [["ins:1", "ins:3"], ["ins:2", "find:1"], ["emp:1", "has:2"]]},
+    # bucket-initialisation race: first access to bucket 6 (parent 2) vs. two / three inserts directly behind dummy(2)
+    {"kind": "uset", "family": "corpus", "bc": 8, "mlf": (4, 1), "pre": ["find:2"], "progs": [["ins:6", "find:10"], ["ins:2"], ["ins:10"]]},
+    {"kind": "umset", "family": "corpus", "bc": 8, "mlf": (4, 1), "pre": ["find:2"], "progs": [["has:6", "cnt:18"], ["ins:18"], ["ins:10"], ["ins:2"]]},
+    # sizing calls before and between concurrent inserts (max_load_factor 3, reserve(100) -> 64 buckets, rehash while inserting)
+    {"kind": "uset", "family": "corpus", "bc": 8, "mlf": (4, 1), "pre": ["mlf:%d" % f32_bits(3.0), "rsv:100", "ins:77"],
+     "progs": [["ins:341", "find:77", "reh:300"], ["ins:682", "rsv:1000", "find:341"]]},
     {"kind": "oset", "family": "corpus", "pre": ["ins:10:2"], "progs": [["ins:5:2", "find:10"], ["ins:5:1", "ins:7:2"]]},
     {"kind": "oset", "family": "corpus", "pre": ["ins:1:2", "ins:7:1"], "progs": [["ins:5:2"], ["find:7", "lb:7"]]},
     {"kind": "omset", "family": "corpus", "pre": ["ins:4:3"], "progs": [["ins:4:2", "ins:4:3"], ["ins:4:3", "cnt:4"], ["trav"]]},
     {"kind": "omap", "family": "corpus", "progs": [["ins:3:3", "find:2"], ["ins:2:3", "find:3"], ["ins:4:2", "lb:3"]]},
 ]
 
-UO_FAMILIES = ["equal", "adjacent", "onebucket", "doubling", "random"]
+UO_FAMILIES = ["equal", "adjacent", "onebucket", "doubling", "random", "dummyinit", "sizing"]
+# scenarios that are swept (hold thread 0 at every scheduling point while the others complete) and DFS-explored with 2 preemptions
+SWEEP_CORPUS = [
+    {"kind": "uset", "family": "sweep", "bc": 8, "mlf": (4, 1), "pre": ["find:2"], "progs": [["ins:6", "find:10", "find:2"], ["ins:2"], ["ins:10"]]},
+    {"kind": "uset", "family": "sweep", "bc": 8, "mlf": (4, 1), "pre": ["find:2"], "progs": [["find:6", "has:18"], ["ins:2"], ["ins:10"], ["ins:18"]]},
+    {"kind": "ummap", "family": "sweep", "bc": 4, "mlf": (4, 1), "pre": ["ins:1"], "progs": [["ins:3", "cnt:5"], ["ins:5"], ["ins:9", "find:5"]]},
+    {"kind": "umap", "family": "sweep", "bc": 16, "mlf": (4, 1), "hash": {1: 4, 2: 4 + 32, 3: 4 + 16 + 64, 4: 12, 5: 4 + (1 << 40)}, "pre": ["find:1"],
+     "progs": [["emp:4", "find:2", "find:3"], ["ins:2"], ["ins:3"], ["emp:5"]]},
+]
 SL_FAMILIES = ["equal", "tall", "maxheight", "random"]
 
 
@@ -495,8 +647,14 @@ def gen(ck):
         raise BuildError("consts harness failed: " + err[-500:])
     c = json.loads(out)
     ck.extra["generated_constants"] = c
-    gen_write("C12", "".join("def %s : Nat := %d\n" % (k, v) for k, v in sorted(c.items())))
+    body, obl, info = c12gen.generate(REPO)
+    gen_write("C12", "set_option linter.unusedVariables false\n" + "".join("def %s : Nat := %d\n" % (k, v) for k, v in sorted(c.items())) + body,
+              imports=("TbbVerif.Core.Cint", "TbbVerif.Model.C12F32"))
     ck.oblige("gen:constants regenerated from the headers", "generated", True, json.dumps(c))
+    ck.extra["generated_sizing"] = info["defs"]
+    ck.extra["bucket_count_writers"] = info["writers"]
+    for what, ok, detail in obl:
+        ck.oblige("gen:%s matches the statement shape the model transcribes (expressions regenerated)" % what, "generated", ok, detail)
     return c
 
 
@@ -559,6 +717,200 @@ def pure(ck):
             break
 
 
+
+# ------------------------------------------------------------------------------------------------------
+# E-PURE: table sizing (bucket count as a function of constructor argument / inserts / reserve / rehash / max_load_factor)
+# ------------------------------------------------------------------------------------------------------
+SZ_FLAGS = ["-O1", "-g", "-fno-access-control"]
+
+
+def f32_val(x):
+    return struct.unpack("<f", struct.pack("<f", x))[0]
+
+
+def is_pow2(v):
+    return v > 0 and v & (v - 1) == 0
+
+
+def sizing_lines(rng, quick):
+    B4 = f32_bits(4.0)
+    lines = []
+    fs = [0.5, 1.0, 1.5, 2.0, 3.0, 4.0, 7.3, 0.1, 0.75, 10.0, 100.0, 1e-3, 1000.5, 0.3333, 12345.678, 2.9999998, 3.0000002]
+    if not quick:
+        fs += [f32_val(rng.uniform(0.01, 50)) for _ in range(40)]
+    for f in fs:
+        fb, fv = f32_bits(f), f32_val(f)
+        ns = set()
+        for j in range(0, 44):
+            x = int((2 ** j) * fv)
+            for d in (-1, 0, 1, 2):
+                ns.add(max(0, x + d))
+        ns = sorted(ns)
+        for n in ns:
+            lines.append("seq 8 %d m%d r%d" % (B4, fb, n))
+        for n0 in (0, 1, 3, 5, 16, 1000):
+            for n in rng.sample(ns, 12 if quick else 40):
+                lines.append("seq %d %d r%d h%d r%d" % (n0, fb, n, rng.choice(ns), rng.choice(ns)))
+        # growth by inserts: chunks ending at / just after the doubling thresholds
+        th = sorted(set(max(1, int(2 ** j * fv) + d) for j in range(0, 14) for d in (0, 1, 2) if 2 ** j * fv < 5000))
+        ops, cur = [], 0
+        for k in th:
+            if cur < k < 6000:
+                ops.append("i%d" % (k - cur))
+                cur = k
+        for n0 in (1, 2, 8):
+            lines.append("seq %d %d %s" % (n0, fb, " ".join(ops)))
+    edge = [0, 1, 2, 3, 4, 5, 7, 8, 9, 15, 16, 17, 31, 33, 100, 341, 1000, 1023, 1024, 1025] + \
+           [2 ** k + d for k in (16, 24, 31, 32, 33, 40, 53, 62, 63) for d in (-1, 0, 1)] + [2 ** 64 - 1, 2 ** 64 - 2]
+    for n in edge:
+        lines.append("seq %d %d h%d" % (n, B4, rng.choice(edge)))
+        lines.append("seq 8 %d h%d h%d" % (B4, n, rng.choice(edge)))
+        lines.append("seq 8 %d r%d" % (f32_bits(1.0), n))
+        lines.append("seq %d %d r%d i3" % (rng.choice(edge[:20]), f32_bits(rng.choice(fs[:7])), n))
+    for n in [2 ** 24 + 1, 2 ** 24 + 2, 2 ** 24 + 3, 2 ** 25 + 2, 2 ** 25 + 3, 3 * 2 ** 24 + 1, 2 ** 31 + 129, 2 ** 40 + 2 ** 16 + 1]:
+        for f in (1.0, 3.0, 1.5):
+            lines.append("seq 8 %d r%d" % (f32_bits(f), n))
+            lines.append("seq %d %d r%d" % (n, f32_bits(f), n + 1))
+    # special load factors: 0, denormals, huge, inf, NaN, negative, -0
+    for fb in [0, 1, f32_bits(1e-45), f32_bits(1e-30), 0x7f800000, 0x7fc00000, f32_bits(-1.0), 0x80000000, 0xff800000, 0x7f7fffff, 0x00800000]:
+        lines.append("seq 8 %d m%d i5 h100 i40" % (B4, fb))
+        lines.append("seq 8 %d m%d r0 r1 r100" % (B4, fb))
+        lines.append("seq 2 %d i3 m%d r7 i9 m%d i30" % (B4, fb, f32_bits(2.0)))
+    for _ in range(300 if quick else 4000):
+        ops, ins = [], 0
+        for _ in range(rng.randrange(1, 9)):
+            r = rng.random()
+            if r < 0.35 and ins < 4000:
+                k = rng.choice([1, 2, 3, rng.randrange(1, 40), rng.randrange(1, 1200)])
+                ins += k
+                ops.append("i%d" % k)
+            elif r < 0.6:
+                ops.append("r%d" % rng.choice([rng.randrange(0, 50), rng.randrange(0, 5000), rng.choice(edge[:38]), 1000]))
+            elif r < 0.8:
+                ops.append("h%d" % rng.choice([rng.randrange(0, 50), rng.randrange(0, 5000), rng.choice(edge)]))
+            else:
+                ops.append("m%d" % f32_bits(rng.choice(fs + [rng.uniform(0.05, 20)])))
+        lines.append("seq %d %d %s" % (rng.choice(edge[:24]), f32_bits(rng.choice(fs)), " ".join(ops)))
+    lines += ["seq", "seq 8", "seq x 1 i1", "seq 8 %d q1" % B4, "seq 8 %d i" % B4, "seq 18446744073709551616 %d" % B4, "seq 8 4294967296"]
+    return lines
+
+
+def pure_sizing(ck):
+    rng = ck.rng
+    quick = ck.tier == "quick"
+    exe = cxx_build("C12", "sz", ["harness/c12/sz.cpp", STUBS], flags=SZ_FLAGS)
+    lines = sizing_lines(rng, quick)
+    model = drv("c12sz", "\n".join(lines) + "\n")
+    send, idx, hangs, wraps = [], [], [], []
+    for i, l in enumerate(lines):
+        mo = model[i] if i < len(model) else ""
+        toks = mo.split()
+        if "hang" in toks:
+            hangs.append(l)
+        elif any(t.rstrip("!") == "0" for t in toks):
+            wraps.append(l)            # the implementation would divide by zero on the next operation
+        else:
+            send.append(l)
+            idx.append(i)
+    rc, out, err = sh([exe], input="\n".join(send) + "\n", timeout=900)
+    a = out.split("\n")[:-1]
+    detail, bad_line = "", None
+    if rc != 0:
+        detail = "harness rc=%d %s" % (rc, err[-300:])
+    else:
+        d = first_diff(a, [model[i] for i in idx])
+        if d is not None:
+            bad_line = send[d] if d < len(send) else "?"
+            detail = "input `%s`: implementation `%s`, model `%s`" % (bad_line, a[d] if d < len(a) else "-", model[idx[d]] if d < len(idx) else "-")
+    ck.count(len(send), None)
+    ck.distinct.update(("sz", l) for l in send[:: max(1, len(send) // 300)])
+    ck.extra["sizing_inputs"] = {"sequences": len(send), "model_says_reserve_does_not_return": len(hangs), "model_says_count_wraps_to_0": len(wraps),
+                                 "samples": [{"input": send[i], "bucket_counts": a[i]} for i in range(0, min(len(a), len(send)), max(1, len(send) // 4))][:4]}
+    ck.oblige("corr:my_bucket_count of the real container after the constructor and after every insert batch / reserve / rehash / max_load_factor call "
+              "equals the Lean sizing model built from the generated expressions (load factors 0.5..12345.678 and specials x boundary values of n)",
+              "correspondence", rc == 0 and not detail, detail)
+    # property monitor on the implementation, independent of the model
+    viol = None
+    for l, o in zip(send, a):
+        for t in o.split():
+            t = t.rstrip("!")
+            if t.isdigit() and not is_pow2(int(t)):
+                viol = (l, o, t)
+                break
+        if viol:
+            break
+    ck.oblige("monitor:my_bucket_count is a power of two after every sizing call (real container, white-box)", "correspondence", viol is None,
+              "" if viol is None else "input `%s`: bucket counts `%s`" % (viol[0], viol[1]))
+    if viol:
+        # shrink: shortest prefix of the op sequence that still shows a bad count
+        w = viol[0].split()
+        ops = w[3:]
+        best = viol[0]
+        for n in range(1, len(ops) + 1):
+            cand = " ".join(w[:3] + ops[:n])
+            r2, o2, _ = sh([exe], input=cand + "\n", timeout=120)
+            if r2 == 0 and any(t.rstrip("!").isdigit() and not is_pow2(int(t.rstrip("!"))) for t in o2.split()):
+                best = cand
+                break
+        ck.counterexample("sizing:bucket-count-not-power-of-two", "`%s` (constructor argument, initial load-factor bits, calls): my_bucket_count becomes %s, not a "
+                          "power of two — bucket b = hash %% count then has a dummy key that can exceed the keys of its elements" % (best, viol[2]),
+                          {"engine": "E-PURE-SZ", "input": best})
+    elif detail and bad_line:
+        ck.extra["sizing_divergence"] = detail
+    # observations (not obligations): arguments for which the code does not return / wraps the count
+    obs = []
+    for what, line, tmo in [("reserve(1) with max_load_factor(0) never returns (necessary_bucket_count * 0 < 1 for ever)", "seq 8 %d m0 r1" % f32_bits(4.0), 4),
+                            ("max_load_factor(1e-30f): 61 inserts double my_bucket_count out of the 64-bit word; it is 0 afterwards and the next "
+                             "operation computes hash % 0", "seq 8 %d i59 i1 i1" % f32_bits(1e-30), 60),
+                            ("rehash(2^63 + 1) SHRINKS the table to 1 bucket (round_up_to_power_of_two overflows)", "seq 1024 %d h9223372036854775809" % f32_bits(4.0), 60)]:
+        mo = drv("c12sz", line + "\n")[0]
+        try:
+            r2, o2, _ = sh([exe], input=line + "\n", timeout=tmo)
+            o2 = o2.strip() if r2 == 0 else ("no answer within %d s" % tmo if r2 in (-9, 124, 137) else "rc=%d" % r2)
+        except Exception:
+            o2 = "no answer within %d s" % tmo
+        obs.append({"what": what, "input": line, "model": mo, "implementation": o2})
+    ck.extra["sizing_observations"] = obs
+    agree = all((o["model"].endswith("hang") and o["implementation"].startswith("no answer")) or o["model"] == o["implementation"] for o in obs)
+    ck.oblige("corr:sizing edge cases (reserve that never returns, count wrapped to 0, rehash beyond 2^63) behave as the model says", "correspondence", agree,
+              "" if agree else json.dumps(obs)[:600])
+
+
+def pure_f32(ck):
+    """binary32 arithmetic of the model (F32) against the hardware floats of the harness"""
+    rng = ck.rng
+    exe = cxx_build("C12", "sz", ["harness/c12/sz.cpp", STUBS], flags=SZ_FLAGS)
+    special = [0, 1, 0x7f800000, 0x7f7fffff, 0x00800000, 0x007fffff, 0x3f800000, 0x40400000, 0x40e9999a, 0x3f000000, 0x4b800000, 0x5f000000]
+
+    def rb():
+        r = rng.random()
+        if r < 0.15:
+            return rng.choice(special)
+        if r < 0.5:
+            return rng.getrandbits(31) % 0x7f800000
+        return (rng.choice([0, 1, 2, 100, 126, 127, 128, 150, 151, 190, 200, 253, 254]) << 23) | rng.getrandbits(23)
+    lines = []
+    for _ in range(4000 if ck.tier == "quick" else 60000):
+        a, b = rb(), rb()
+        lines += ["mul %d %d" % (a, b), "div %d %d" % (a, b), "lt %d %d" % (a, b), "le %d %d" % (a, b), "eq %d %d" % (a, a if rng.random() < 0.2 else b)]
+        n = rng.choice([rng.getrandbits(64), rng.getrandbits(rng.randrange(1, 65)), (1 << rng.randrange(64)) + rng.choice([-1, 0, 1, 3])])
+        n = max(0, min(n, 2 ** 64 - 1))
+        lines += ["of %d" % n, "muln %d %d" % (n, b)]
+        c = (rng.randrange(100, 189) << 23) | rng.getrandbits(23)
+        lines.append("ton %d" % c)
+    lines += ["mul 1", "foo 1 2", "of x", "mul 4294967296 1"]
+    text = "\n".join(lines) + "\n"
+    rc, out, err = sh([exe], input=text, timeout=600)
+    a = out.split("\n")[:-1]
+    b = drv("c12f32", text)
+    d = first_diff(a, b) if rc == 0 else 0
+    ck.count(len(lines), None)
+    ck.distinct.update(("f32", l) for l in lines[:: max(1, len(lines) // 200)])
+    ck.oblige("corr:binary32 multiply / divide / compare / conversions of the model (F32) agree with the hardware floats", "correspondence",
+              rc == 0 and d is None, "" if (rc == 0 and d is None) else "input `%s`: implementation %s, model %s" % (
+                  lines[d] if d < len(lines) else "?", a[d] if d < len(a) else "-", b[d] if d < len(b) else "-"))
+
+
 # ------------------------------------------------------------------------------------------------------
 # E-SHIM
 # ------------------------------------------------------------------------------------------------------
@@ -604,6 +956,101 @@ def report_failure(ck, exes, sc, r, how):
          "mode": r.get("mode"), "monitor": mon})
 
 
+def dummy_cas_stats(run, stats):
+    """failed CAS of insert_dummy_node: how many nodes did the retry have to walk past (= interfering inserts behind the predecessor)"""
+    last_store = {}
+    counting = {}
+    for e in run["log"]:
+        if e[0] != "e":
+            continue
+        _, t, k, var, a, b, ok, order = e
+        mm = NODE_TOK.match(var)
+        if k == "store":
+            if t in counting:
+                w = max(0, counting.pop(t) - 1)
+                stats["dummy_retry_walk_max"] = max(stats["dummy_retry_walk_max"], w)
+                if w >= 2:
+                    stats["dummy_retry_walked_2plus"] += 1
+            last_store[t] = mm.group(1) if mm and mm.group(2) else None
+        elif k == "cas" and mm and mm.group(2) and ok == "0":
+            n = last_store.get(t)
+            if n is not None and run["nodes"].get(n, ["", "", ""])[2] == "d":
+                stats["dummy_cas_failures"] += 1
+                counting[t] = 0
+        elif k == "load" and mm and mm.group(2) and t in counting:
+            counting[t] += 1
+    for t, c in counting.items():
+        w = max(0, c - 1)
+        stats["dummy_retry_walk_max"] = max(stats["dummy_retry_walk_max"], w)
+        if w >= 2:
+            stats["dummy_retry_walked_2plus"] += 1
+
+
+def account_run(ck, sc, r, st, stats):
+    stats["events"] += st["events"]
+    stats["skipped_loads"] += st["skipped_loads"]
+    stats["unmodelled_accesses"] += st["unmodelled_accesses"]
+    for o in st["orders_bad"]:
+        stats["orders_bad"].add(o)
+    casf = sum(1 for e in r["log"] if e[0] == "e" and e[2] == "cas" and e[6] == "0")
+    for e in r["log"]:
+        if e[0] != "e":
+            continue
+        if e[2] == "cas" and e[3] == "bc" and e[6] == "1":
+            stats["table_doublings"] += 1
+        elif e[2] == "store" and e[3].startswith("slot"):
+            stats["bucket_inits"] += 1
+        elif e[2] == "cas" and e[6] == "0" and re.search(r"\.next[1-9]\d*$", e[3]):
+            stats["upper_level_cas_failures"] += 1
+        elif e[2] == "cas" and e[3] == "maxh":
+            stats["max_height_cas"] += 1
+    if sc["kind"] in UO_KINDS:
+        dummy_cas_stats(r, stats)
+        for rr in r["res"].values():
+            if rr[0] in SIZE_OPS:
+                stats["sizing_calls_in_threads"] += 1
+    ck.count(1, (sc["kind"], sc["family"], len(sc["progs"]), min(casf, 3), r["aux"].get("bcfin", r["aux"].get("maxhfin")),
+                 tuple(sorted(set(v[0] + v[-1] for v in r["res"].values())))))
+    stats["cas_failures"] += casf
+    fam = stats["families"].setdefault("%s/%s" % (sc["kind"], sc["family"]), 0)
+    stats["families"]["%s/%s" % (sc["kind"], sc["family"])] = fam + 1
+
+
+def run_sweeps(ck, exes, scs, maxruns, stats, with_model=True):
+    """state-guided schedules: thread 0 is held after j = 1, 2, ... scheduling points (this includes `between the search of
+    insert_dummy_node and its CAS`) while every ordered selection of k = 1..n of the other threads runs to completion; all
+    runs are monitored, the ones in which the held thread then had a failed CAS are replayed on the model"""
+    bad_corr, bad_mon = [], []
+    for sc in scs:
+        exe = exe_for(sc, exes)
+        rc, out, err = run_harness(exe, sc, ["sweep", "0", str(maxruns)], timeout=900)
+        runs = parse_runs(out)
+        m = re.search(r"summary runs=(\d+) bad=(\d+) obs=(\d+)", out)
+        if m:
+            stats["sweep_runs"] += int(m.group(1))
+            ck.evaluations += int(m.group(1))
+        for r in runs:
+            if r["mon"] != "ok":
+                bad_mon.append((sc, r))
+                continue
+            if not with_model:
+                continue
+            try:
+                d, st = replay_on_model(sc, r)
+            except BuildError as e:
+                d, st = "model driver failed: %s" % e, {}
+            ck.traces_validated += 1
+            stats["sweep_replayed"] += 1
+            if d:
+                bad_corr.append((sc, r, d))
+                continue
+            account_run(ck, sc, r, st, stats)
+        if rc not in (0, 1, 3) or not m:
+            bad_mon.append((sc, {"mon": "harness crashed or was killed (rc=%d) %s" % (rc, err[-300:].replace("\n", " ")), "sched": [],
+                                 "mode": ["sweep", "0", str(maxruns)]}))
+    return bad_corr, bad_mon
+
+
 def run_scenarios(ck, exes, scs, nrand, label, stats, with_model=True):
     """random schedules + replay on the model + monitors; returns (bad_corr, bad_mon)"""
     bad_corr, bad_mon = [], []
@@ -633,28 +1080,7 @@ def run_scenarios(ck, exes, scs, nrand, label, stats, with_model=True):
             if d:
                 bad_corr.append((sc, r, d))
                 continue
-            stats["events"] += st["events"]
-            stats["skipped_loads"] += st["skipped_loads"]
-            stats["unmodelled_accesses"] += st["unmodelled_accesses"]
-            for o in st["orders_bad"]:
-                stats["orders_bad"].add(o)
-            casf = sum(1 for e in r["log"] if e[0] == "e" and e[2] == "cas" and e[6] == "0")
-            for e in r["log"]:
-                if e[0] != "e":
-                    continue
-                if e[2] == "cas" and e[3] == "bc" and e[6] == "1":
-                    stats["table_doublings"] += 1
-                elif e[2] == "store" and e[3].startswith("slot"):
-                    stats["bucket_inits"] += 1
-                elif e[2] == "cas" and e[6] == "0" and re.search(r"\.next[1-9]\d*$", e[3]):
-                    stats["upper_level_cas_failures"] += 1
-                elif e[2] == "cas" and e[3] == "maxh":
-                    stats["max_height_cas"] += 1
-            ck.count(1, (sc["kind"], sc["family"], len(sc["progs"]), min(casf, 3), r["aux"].get("bcfin", r["aux"].get("maxhfin")),
-                         tuple(sorted(set(v[0] + v[-1] for v in r["res"].values())))))
-            stats["cas_failures"] += casf
-            fam = stats["families"].setdefault("%s/%s" % (sc["kind"], sc["family"]), 0)
-            stats["families"]["%s/%s" % (sc["kind"], sc["family"])] = fam + 1
+            account_run(ck, sc, r, st, stats)
         if rc not in (0, 1, 3) or (rc == 0 and len(runs) != nrand):
             bad_mon.append((sc, {"mon": "harness crashed or was killed (rc=%d) %s" % (rc, err[-300:].replace("\n", " ")), "sched": [],
                                  "mode": ["rand", str(seed), str(nrand)]}))
@@ -722,9 +1148,13 @@ def run(ck):
     quick = ck.tier == "quick"
     ck.rule = ("E-SHIM: hand-written contention scenarios + seeded random scenarios for the 4 unordered and 4 ordered containers (families: equal keys, "
                "order keys equal/adjacent in split order, all-to-one-bucket and constant hashes, bucket-table doublings from 1-2 buckets with max_load_factor "
-               "1/2..2, tall neighbouring skip-list nodes, heights 30-32, random mixes; 2-4 threads of insert/emplace/find/contains/count/lower_bound/traversal), "
-               "each under seeded random schedules, every traced access replayed on the Lean model, plus bounded-preemption DFS of the corpus with the "
-               "implementation-side monitors; E-PURE: exhaustive small + boundary-biased 64-bit inputs; distinct = (container, family, #threads, #failed CAS "
+               "1/2..2, bucket-initialisation races (first access to a bucket vs. 2-3 inserts between the parent's and the new dummy node), reserve/rehash/"
+               "max_load_factor(0.5..10) before and between concurrent inserts, tall neighbouring skip-list nodes, heights 30-32, random mixes; 2-4 threads of "
+               "insert/emplace/find/contains/count/lower_bound/traversal/reserve/rehash/max_load_factor), "
+               "each under seeded random schedules, every traced access replayed on the Lean model, plus state-guided sweeps (one thread held at every "
+               "scheduling point while 1..3 others complete) and bounded-preemption DFS (>= 2 preemptions) with the implementation-side monitors; "
+               "E-PURE: exhaustive small + boundary-biased 64-bit inputs; bucket-count sequences (constructor, insert batches at the doubling "
+               "thresholds, reserve/rehash at n = 2^j*f + {-1,0,1,2}, load factors incl. 0, denormal, inf, NaN, negative) and binary32 operations; distinct = (container, family, #threads, #failed CAS "
                "(capped), final bucket count / max height, result kinds) classes")
     ck.assumptions += [
         "proved on the models (any number of threads, every schedule, sequentially consistent interleavings of the traced accesses): the CAS list "
@@ -740,32 +1170,51 @@ def run(ck):
         "the bucket count never exceeds 2^63 (63 segment pointers); the model stops doubling there",
         "`find after insert` for the skip list assumes the insert has RETURNED (my_max_height raised): a node linked on level 0 by an insert that has not "
         "yet raised my_max_height from 0 is invisible to lookups, and other inserters busy-wait for it (recorded as an observation)",
-        "unsafe_erase/extract/merge/rehash/reserve/clear/copy/move are outside the property (not concurrency-safe by contract)",
+        "rehash/reserve are modelled and exercised concurrently with inserts (they only CAS my_bucket_count); max_load_factor(f) is a plain store: it is "
+        "exercised inside thread programs under the serialising shim only; unsafe_erase/extract/merge/clear/copy/move are outside the property",
+        "table sizing: the bucket-count expressions are regenerated from the header; the float conditions (when to grow) are tied by the E-PURE "
+        "differential only — the power-of-two theorem does not depend on them; in the interleaving model a bucket count that would leave the 64-bit "
+        "word is not installed (Sizing models the wrap-around to 0 that the code performs for load factors below ~2^-60 x size)",
         "weak CAS never fails spuriously under the shim; allocation failure and throwing constructors are not exercised"]
     ck.trusted += ["harness/shim (atomic shim + baton scheduler)", "harness/c12/*.cpp monitors and address canonicalisation (bump arena: no address reuse within a run)",
                    "trace replay and first-appearance node renaming in checks/c12.py (sampled correspondence)", "harness/c12/consts.cpp, pure.cpp"]
     gen(ck)
-    ck.lean_stage()
+    if not ck.lean_stage():
+        # the proofs no longer check; the executable model may still build (it is needed for the differentials below)
+        okd, logd, _ = common.lake_build(["drv_c12"])
+        if not okd:
+            raise BuildError("the Lean model driver drv_c12 does not build: " + logd[-800:])
     pure(ck)
+    pure_f32(ck)
+    pure_sizing(ck)
     exes = {"uo": build("uo"), "sl": build("sl")}
     stats = {"scenarios": 0, "runs": 0, "events": 0, "skipped_loads": 0, "unmodelled_accesses": 0, "orders_bad": set(), "cas_failures": 0,
              "dfs_runs": 0, "families": {}, "observations": 0, "observation_samples": [],
-             "table_doublings": 0, "bucket_inits": 0, "upper_level_cas_failures": 0, "max_height_cas": 0}
+             "table_doublings": 0, "bucket_inits": 0, "upper_level_cas_failures": 0, "max_height_cas": 0,
+             "dummy_cas_failures": 0, "dummy_retry_walked_2plus": 0, "dummy_retry_walk_max": 0, "sweep_runs": 0, "sweep_replayed": 0,
+             "sizing_calls_in_threads": 0}
     bad_corr, bad_mon = run_scenarios(ck, exes, CORPUS, 40 if quick else 200, "corpus", stats)
-    scs = make_scenarios(ck, 100 if quick else 800, 90 if quick else 700)
+    scs = make_scenarios(ck, 140 if quick else 1100, 90 if quick else 700)
     bc2, bm2 = run_scenarios(ck, exes, scs, 12 if quick else 30, "random", stats)
     bad_corr += bc2
     bad_mon += bm2
+    # bucket-initialisation race: state-guided sweeps (hold the initialising thread at every scheduling point while k = 1..3
+    # interfering inserts complete) and bounded-preemption DFS (2 preemptions; 3 in the thorough tier)
+    sweeps = SWEEP_CORPUS + [gen_dummyinit(ck.rng) for _ in range(6 if quick else 60)]
+    bc3, bm3 = run_sweeps(ck, exes, sweeps, 4000 if quick else 20000, stats)
+    bad_corr += bc3
+    bad_mon += bm3
     bad_mon += run_dfs(ck, exes, CORPUS, 2, 6000 if quick else 150000, stats)
+    bad_mon += run_dfs(ck, exes, SWEEP_CORPUS, 2, 12000 if quick else 400000, stats)
     if not quick:
-        bad_mon += run_dfs(ck, exes, CORPUS, 3, 60000, stats)
+        bad_mon += run_dfs(ck, exes, CORPUS + SWEEP_CORPUS[:2], 3, 60000, stats)
     bad_mon += run_probes(ck, exes)
     searched = False
     if (ck.broken() or bad_corr) and not bad_mon:
         # something no longer checks: look harder for a schedule on which the PROPERTY fails on the implementation
         searched = True
         log("an obligation broke: searching for a failing schedule on the implementation")
-        more = make_scenarios(ck, 150 if quick else 800, 150 if quick else 800)
+        more = make_scenarios(ck, 210 if quick else 1100, 150 if quick else 800)
         cand = []
         for c in bad_corr:
             if c[0] not in cand and len(cand) < 4:
@@ -773,17 +1222,27 @@ def run(ck):
         _, bm3 = run_scenarios(ck, exes, cand + more, 30 if quick else 60, "search", stats, with_model=False)
         bad_mon += bm3
         if not bad_mon:
-            bad_mon += run_dfs(ck, exes, cand[:2] + CORPUS, 3, 8000 if quick else 200000, stats)
+            _, bm4 = run_sweeps(ck, exes, [c for c in cand if c["kind"] in UO_KINDS][:2] + [gen_dummyinit(ck.rng) for _ in range(20 if quick else 200)],
+                                6000 if quick else 30000, stats, with_model=False)
+            bad_mon += bm4
+        if not bad_mon:
+            bad_mon += run_dfs(ck, exes, cand[:2] + CORPUS + SWEEP_CORPUS, 3, 8000 if quick else 200000, stats)
     ck.extra["schedules"] = {k: (sorted(v) if isinstance(v, set) else v) for k, v in stats.items()}
     ck.extra["searched_for_failing_schedule"] = searched
+    ck.oblige("coverage:the schedules reached the bucket-initialisation window (a failed insert_dummy_node CAS whose retry had to walk past >= 2 "
+              "nodes linked behind its predecessor) and sizing calls between concurrent inserts", "correspondence",
+              bool(bad_mon or bad_corr) or (stats["dummy_retry_walked_2plus"] > 0 and stats["sizing_calls_in_threads"] > 0),
+              "dummy CAS failures %d, retries that walked past >= 2 nodes %d, sizing calls inside thread programs %d" % (
+                  stats["dummy_cas_failures"], stats["dummy_retry_walked_2plus"], stats["sizing_calls_in_threads"]))
     ck.oblige("gen:memory orders of the traced accesses are at least what the argument needs (acquire loads, seq_cst CAS, release publication)",
               "generated", not stats["orders_bad"], "; ".join(sorted(stats["orders_bad"])[:8]))
     ck.oblige("corr:every traced access (list pointers, bucket slots, bucket count, size, level pointers, max height), every operation result and the "
               "final contents replay on the Lean models SplitOrder / SkipList", "correspondence", not bad_corr,
               "" if not bad_corr else "%s | %s %s | pre %s | threads %s | schedule %s" % (
                   bad_corr[0][2], bad_corr[0][0]["kind"], bad_corr[0][0].get("family"), bad_corr[0][0].get("pre", []), bad_corr[0][0]["progs"], " ".join(bad_corr[0][1]["sched"])))
-    ck.oblige("monitor:final contents = successful inserts, one winner per key, find-after-insert, traversals complete/duplicate-free/ordered, bucket "
-              "reachability, level structure, no deadlock/livelock (random + bounded-preemption DFS)", "correspondence", not bad_mon,
+    ck.oblige("monitor:final contents = successful inserts, one winner per key, find-after-insert, traversals complete/duplicate-free/ordered, raw list "
+              "(dummy nodes included) sorted, bucket entries in place, every element reachable from its bucket entry for every bucket count the table had, "
+              "bucket count a power of two, level structure, no deadlock/livelock (random + state-guided sweeps + bounded-preemption DFS)", "correspondence", not bad_mon,
               "" if not bad_mon else "%s | %s %s | pre %s | threads %s" % (bad_mon[0][1]["mon"], bad_mon[0][0]["kind"], bad_mon[0][0].get("family"), bad_mon[0][0].get("pre", []), bad_mon[0][0]["progs"]))
     seen = set()
     for sc, r in bad_mon:
@@ -796,6 +1255,13 @@ def run(ck):
 
 def replay(ck, obj):
     r = obj["replay"]
+    if r.get("engine") == "E-PURE-SZ":
+        exe = cxx_build("C12", "sz", ["harness/c12/sz.cpp", STUBS], flags=SZ_FLAGS)
+        rc, out, err = sh([exe], input=r["input"] + "\n", timeout=120)
+        m = drv("c12sz", r["input"] + "\n")
+        print("input %s: implementation bucket counts %s, model %s" % (r["input"], out.strip(), m[0] if m else "-"))
+        bad = rc != 0 or any(t.rstrip("!").isdigit() and not is_pow2(int(t.rstrip("!"))) for t in out.split())
+        return 1 if bad else 0
     if r.get("engine") == "E-PURE":
         exe = cxx_build("C12", "pure", ["harness/c12/pure.cpp", STUBS], flags=["-O1", "-g", "-fno-access-control", "-fsanitize=address,undefined", "-fno-sanitize-recover=all"])
         rc, out, err = sh([exe], input=r["input"] + "\n", timeout=60)
